@@ -65,6 +65,8 @@ def fmt_case(c):
         lines.append("gap %d" % c["gap"])
     if c.get("hintlie"):
         lines.append("hintlie %d" % c["hintlie"])
+    if c.get("clonecrash") is not None:
+        lines.append("clonecrash %d" % c["clonecrash"])
     if c.get("c0") is not None:
         lines.append("c0 %d" % c["c0"])
     if c.get("multi"):
